@@ -152,8 +152,10 @@ class HTTP(BaseComponent):
         res.prepare()
         self.fire(write(sock, b'%s%s' % (bytes(res), bytes(headers))))
 
-        if req.method == 'HEAD':
+        if req.method == 'HEAD' or res.status < 200 or res.status in (204, 304):
             # no body, but the connection is finished with like any other
+            if hasattr(res.body, 'close'):
+                res.body.close()
             if res.close:
                 self.fire(close(sock))
             if sock in self._clients:
